@@ -341,6 +341,18 @@ func init() {
 	add("C01", ruleR01_6)
 	add("C14", ruleR01_6)
 	add("C17", ruleR17_14)
+	add("C12", ruleR12_11, ruleR12_12)
+	add("C11", ruleR12_12)
+	add("C16", ruleR12_11)
+	for _, id := range []string{"C09", "C13", "C10", "C02", "C19"} {
+		add(id, ruleR09_17)
+	}
+	add("C05", ruleR09_8)
+	add("C06", ruleR09_8)
+	add("C10", ruleR09_6)
+	for _, id := range []string{"C07", "C09", "C18", "C01", "C05", "C06"} {
+		add(id, ruleR07_6)
+	}
 	add("C05", ruleR17_14)
 	add("C01", ruleR03_6)
 	add("C02", ruleR05_1)
